@@ -30,9 +30,8 @@ def run(tier):
     rep = Report('C08', tier)
     prog = load_core('systemd')
     ix = prog.unit(BLOCK_UNIT)
-    for f in ('sendLargeTlvResponse', 'parseQueryLargeTlv'):
-        if f not in ix.functions:
-            raise AnalysisBroken('anchor function %s vanished' % f)
+    global BUILDER
+    BUILDER = builder_name(ix)
     rep.rule('R08.1', 'response length = min(P, max(0, size - offset)), P = MTU - 34; copy of exactly that many bytes from data + offset to payload', floor=4)
     rep.rule('R08.2', "'more' flag (bit 15 of the length field) set iff size - offset > P; length field = payload length", floor=4)
     rep.rule('R08.3', 'missing data or size 0 or offset at/past the end: empty payload, flag clear', floor=3)
@@ -47,6 +46,34 @@ def run(tier):
                   'sequence handling and the arguments handed over. Reassembly follows by induction on the offset.',
                   'abstract interpretation to a piecewise-linear case table; linear entailment against the oracle', exhaustive=True,
                   assumptions=None)
+
+
+BUILDER = 'sendLargeTlvResponse'
+
+
+def builder_name(ix):
+    """The QueryLargeTlvResp builder, by role rather than by name: the function that transmits and takes
+    (record, context, request frame, data, size, offset) - `sendLargeTlvResponse` today."""
+    from ..facts import walk, fn_params
+    want = ['lltd_iface_state *', 'void *', 'void *', 'const void *', 'size_t', 'uint16_t']
+    cands = []
+    for name, fn in ix.functions.items():
+        ps = [p_['type']['qualType'].replace('struct ', '') for p_ in fn_params(fn)]
+        if [x.replace('const ', '') if i < 3 else x for i, x in enumerate(ps)] != want and ps != want:
+            continue
+        sends_ = False
+        for n in walk(fn):
+            if n.get('kind') == 'CallExpr' and n.get('inner'):
+                c = n['inner'][0]
+                while c.get('kind') in ('ImplicitCastExpr', 'ParenExpr'):
+                    c = c['inner'][0]
+                if c.get('kind') == 'DeclRefExpr' and c.get('referencedDecl', {}).get('name') == 'lltd_port_send_frame':
+                    sends_ = True
+        if sends_:
+            cands.append(name)
+    if len(cands) != 1:
+        raise AnalysisBroken('cannot identify the QueryLargeTlvResp builder (transmitting function taking record, context, frame, data, size, offset): candidates %s' % cands)
+    return cands[0]
 
 
 def part1(rep, prog, ix, mtu_ok):
@@ -67,21 +94,21 @@ def part1(rep, prog, ix, mtu_ok):
         dp = ('pset', ('sym', 'data@entry', 0, 0), (ZERO, ('ptr', 'DATA', ZERO)))
         return [Val(ix.parse_type('lltd_iface_state *'), ('ptr', 'st', ZERO)), Val(vp, ('ptr', 'ext:ctx', ZERO)), Val(vp, ('ptr', 'frame', ZERO)),
                 Val(vp, dp), Val(ix.parse_type('unsigned long'), S), Val(ix.parse_type('unsigned short'), O)]
-    I, outs = run_entry(prog, BLOCK_UNIT, 'sendLargeTlvResponse', setup, port=port, tracked=(S, O), name='sendLargeTlvResponse')
+    I, outs = run_entry(prog, BLOCK_UNIT, BUILDER, setup, port=port, tracked=(S, O), name=BUILDER)
     for ob in I.obs.values():
         if not ob.ok:
-            rep.fail('R08.1', 'sendLargeTlvResponse|%s' % ob.kind + tag, ob.msg, node=ob.node, function=ob.fn)
-    fn = ix.functions['sendLargeTlvResponse']
+            rep.fail('R08.1', 'builder|%s' % ob.kind + tag, ob.msg, node=ob.node, function=ob.fn)
+    fn = ix.functions[BUILDER]
     ncase = 0
     rest = I.simp(('sub', S, O))                       # size - offset
     for st0, _ in outs:
         sn0 = sends(st0)
         if len(sn0) != 1:
-            rep.fail('R08.1', 'response|count' + tag, 'sendLargeTlvResponse transmits %d frames on a path' % len(sn0), node=fn, function='sendLargeTlvResponse')
+            rep.fail('R08.1', 'response|count' + tag, '%s transmits %d frames on a path' % (BUILDER, len(sn0)), node=fn, function=BUILDER)
             continue
         dp0 = st0.canon(('pset', ('sym', 'data@entry', 0, 0), (ZERO, ('ptr', 'DATA', ZERO))))
         if dp0[0] == 'pset':
-            rep.fail('R08.3', 'data-unchecked' + tag, 'a path builds the response without testing whether data is present', node=fn, function='sendLargeTlvResponse')
+            rep.fail('R08.3', 'data-unchecked' + tag, 'a path builds the response without testing whether data is present', node=fn, function=BUILDER)
             continue
         have = dp0[0] == 'ptr'
         # split the path along the oracle's case boundaries (only feasible sub-cases are checked)
@@ -125,30 +152,30 @@ def part1(rep, prog, ix, mtu_ok):
                 rep.check(ok, 'R08.3', 'empty|%s%s' % (cname, tag),
                           'with %s the response has payload length %s, length field %s %s, %d copies; expected an empty payload with the flag clear'
                           % ('no data' if cname == 'nodata' else 'offset at or past the end', short(n), short(hi), short(lo), len(copies)),
-                          node=fn, function='sendLargeTlvResponse', sample=desc)
+                          node=fn, function=BUILDER, sample=desc)
                 continue
             c_more = cname == 'more'
             want = I.simp(P) if c_more else rest
             okn = st.prove_le(n, want) and st.prove_le(want, n)
             rep.check(okn, 'R08.1', 'length|%s%s' % (cname, tag),
                       'payload length is %s, expected %s (%s)' % (short(n), 'P = MTU-34' if c_more else 'size - offset', 'more remains' if c_more else 'final chunk'),
-                      node=fn, function='sendLargeTlvResponse', sample=desc)
+                      node=fn, function=BUILDER, sample=desc)
             okc = len(copies) == 1
             if okc:
                 e = copies[0]
                 okc = st.same(e[2], C(HDR)) and e[3] == 'DATA' and st.same(e[4], O) and st.prove_le(e[5], n) and st.prove_le(n, e[5])
             rep.check(okc, 'R08.1', 'copy|%s%s' % (cname, tag),
                       'payload is not one copy of exactly the payload length from data + offset to frame offset 34: %s' % [(short(e[2]), e[3], short(e[4]), short(e[5])) for e in copies],
-                      node=fn, function='sendLargeTlvResponse')
+                      node=fn, function=BUILDER)
             nb0, nb1 = st.canon(mk_byte(n, 0)), st.canon(mk_byte(n, 1))
             exp_hi = st.canon(bitop_byte('or', nb1, C(0x80), None, 1)) if c_more else nb1
             fits15 = st.dom(n).hi < 32768
             okf = fits15 and same_byte(st, lo, nb0) and same_byte(st, hi, exp_hi)
             rep.check(okf, 'R08.2', 'flag|%s%s' % (cname, tag),
                       "length field bytes are %s %s; expected payload length %s with the 'more' flag %s" % (short(hi), short(lo), short(n), 'set' if c_more else 'clear'),
-                      node=fn, function='sendLargeTlvResponse')
+                      node=fn, function=BUILDER)
             sq = mk_cat((st.canon(snap.byte(31)), st.canon(snap.byte(30))))
-            rep.check(st.same(sq, SEQ0), 'R08.5', 'seq|builder' + tag, 'response sequence number is %s, not the stored request sequence' % short(sq), node=fn, function='sendLargeTlvResponse')
+            rep.check(st.same(sq, SEQ0), 'R08.5', 'seq|builder' + tag, 'response sequence number is %s, not the stored request sequence' % short(sq), node=fn, function=BUILDER)
     if ncase < 4:
         rep.broke('only %d response paths' % ncase)
     rep.analysed['response_builder_paths' + tag] = ncase
@@ -176,12 +203,12 @@ def part2(rep, prog, ix):
     def summary(I, st, args, node, rty):
         # record what is handed to the response builder, then interpret the real function
         st.tags['qlt.args'] = (st.canon(args[3].t), st.canon(args[4].t), st.canon(args[5].t))
-        ixx, fn = I.prog.resolve(I.ix, 'sendLargeTlvResponse')
+        ixx, fn = I.prog.resolve(I.ix, BUILDER)
         return I.inline(st, ixx, fn, args, node, rty)
     orig_run = fs.run
 
     def run_with(**kw):
-        kw['extra_summaries'] = {'sendLargeTlvResponse': summary}
+        kw['extra_summaries'] = {BUILDER: summary}
         return orig_run(**kw)
     fs.run = run_with
     res, obs, stats = run_regions(fs, regions=['topo.qlt', 'quick.qlt'])
@@ -214,10 +241,10 @@ def part2(rep, prog, ix):
             rep.check(st.same(snap.byte(30), ('in', 'frame', 30)) and st.same(snap.byte(31), ('in', 'frame', 31)), 'R08.5', '%s|seq' % region,
                       'response sequence bytes %s %s are not the request\'s' % (short(st.canon(snap.byte(30))), short(st.canon(snap.byte(31)))), function='parseQueryLargeTlv', file=fnf)
             rep.check(st.canon(snap.byte(17)) == C(OP['queryLargeTlvResp']), 'R08.5', '%s|opcode' % region, 'response opcode is %s' % short(st.canon(snap.byte(17))),
-                      function='sendLargeTlvResponse', file=fnf)
+                      function=BUILDER, file=fnf)
             a = st.tags.get('qlt.args')
             if a is None:
-                rep.fail('R08.5', '%s|builder-not-used' % region, 'the response is not built by sendLargeTlvResponse', function='parseQueryLargeTlv', file=fnf)
+                rep.fail('R08.5', '%s|builder-not-used' % region, 'the response is not built by %s' % BUILDER, function='parseQueryLargeTlv', file=fnf)
                 continue
             data, size, off = a
             rep.check(st.same(off, off_t), 'R08.5', '%s|offset-arg' % region, 'offset handed to the response builder is %s, not the request\'s offset field' % short(off),
